@@ -276,7 +276,7 @@ fn check_c05<T: Sc>(ctx: &Ctx, c: &Case, su: &Setup<T>, o: &Outcome<T>) {
     let rnorm = refla::fro(&r_fit);
     let small = if c.f32_ { 1e-5 } else { 1e-10 } * wy;
     if rnorm > small {
-        let r = reference::<T>(&su.spec, &alpha_hat, &su.y, su.w.as_ref(), T::EPS, false);
+        let r = reference::<T>(&su.spec, &alpha_hat, &su.y, su.w.as_ref(), c.eps.map(|e| T::f(e).d().abs()).unwrap_or(T::EPS), false);
         if let (RankClass::Full, Some(svd)) = (r.class, &r.svd) {
             let tol = if c.f32_ { 5e-2 } else { 1e-5 };
             for k in 0..c.fam.p() {
@@ -717,7 +717,7 @@ fn c05_cases(thorough: bool, v: &mut dyn FnMut(Case)) {
                                             continue;
                                         }
                                         let coefs: Vec<Vec<f64>> = (0..s).map(|k| cf.iter().enumerate().map(|(j, c)| c * (1.0 + 0.5 * k as f64) + 0.25 * (k * (j + 1)) as f64).collect()).collect();
-                                        v(Case { fam: fam.clone(), alpha: alpha.clone(), coefs, n, prov, f32_, par, mrhs_api: s > 1 || (ti + smi) % 2 == 1, w, level, noise_variant: nv, start_mult: sm.clone(), solver: SolverCfg::default_(), pool: 0, eps: None });
+                                        v(Case { fam: fam.clone(), alpha: alpha.clone(), coefs, n, prov, f32_, par, mrhs_api: s > 1 || (ti + smi) % 2 == 1, w, level, noise_variant: nv, start_mult: sm.clone(), solver: SolverCfg::default_(), pool: 0, eps: if (ti + smi + n) % 5 == 0 { Some(if (ti + smi) % 2 == 0 { 1e-3 } else { 1e-2 }) } else { None } });
                                     }
                                 }
                             }
